@@ -26,6 +26,7 @@ RULE = ('cost = number of Python LINE events executed inside pytoniq_core during
         'unterminated unary lengths, 1023-bit keys: same budget. '
         'non-trivial = the DAG shares at least one cell / the mutated field differs from the original; states = distinct inputs; '
         'transitions = monitored calls; traces = calls whose cost was compared with the budget')
+RULE += ' Fifth session: 12 malformed exotic roots (wrong reference count / hash / depth / type byte, short payload) x {from_boc, Cell(), Builder.end_cell} on every shared DAG under the step budget; valid dictionaries whose forks share one child (2^d entries in d + 1 cells; recorded finding).'
 LEVEL_TEXT = ('Bounded-exhaustive with a deterministic cost oracle: every DAG shape up to the bound, sharing families with up to 2^40 (4^40) root '
               'paths, and every adversarial value of every length/count/descriptor field of small BoC, TL and dictionary inputs is run through the '
               'real code under a step monitor that aborts the call at the budget, so exponential re-traversal and count-field-driven loops are '
